@@ -34,6 +34,51 @@ def harness_cancel_force(sym):
     check_trace(sym, sc, TEMPLATES[t], {"C04"})
 
 
+def harness_generated(sym):
+    """Methods assembled by solver selectors (props/gen_methods.py) with one Watch or Alarm; the condition becomes true at a
+    solver-chosen tick and stays true.  Tolerant per-flow oracle (no run without condition, not after the block ended, a Watch
+    not twice) + liveness at the root: the Watch body runs, the Alarm body runs again."""
+    from props.gen_methods import generate, Infeasible
+    from props.interp_common import structure
+    sh = sym.shard
+    try:
+        pc = generate(sym, sh["slots"], sh["body"], True, False, sh.get("first"), sh.get("blocks", 2), tuple(sh.get("pre", ())), alarm=True)
+    except Infeasible:
+        sym.assume(False)
+    if "In1" not in pc:
+        sym.assume(False)            # no Watch / Alarm in this method: not this property's business
+    n = 2 * pc.count("\n") + 3 * pc.count("Wait:") + 22
+    sc = run_scenario(sym, "generated", n, pcode=pc, collect_runlog=False)
+    sym.check(not sc.tick_errors, "C04|generated|tick-raised", lambda: f"{pc!r}: Engine.tick raised {sc.tick_errors[:1]}")
+    check_trace(sym, sc, pc, {"C04"})
+    root, lines = structure(pc)
+    w = [ln for ln in lines if ln.name in ("Watch", "Alarm")][0]
+    marks = sc.marks_by_tick[-1] if sc.marks_by_tick else []
+    up = next((i for i, v in enumerate(sc.in1) if v == 1), None)
+    body_mark = [c.arg for c in w.children if c.name == "Mark"] or [c2.arg for c in w.children for c2 in c.children if c2.name == "Mark"]
+    if w.parent is root and "END" in marks and up is not None and body_mark:
+        end_tick = next(i for i, m in enumerate(sc.marks_by_tick) if "END" in m)
+        since = max(up, end_tick)     # registered (the main flow passed it) and the condition true
+        cnt = marks.count(body_mark[0])
+        if since + 10 <= n:
+            sym.check(cnt >= 1, f"C04|generated|{w.name.lower()}-never-ran", lambda: f"{pc!r}: In1 = 1 from tick {up}, method finished at tick {end_tick}, run of {n} ticks: {body_mark[0]} never marked; marks {marks}")
+        if w.name == "Alarm" and since + 18 <= n:
+            sym.check(cnt >= 2, "C04|generated|alarm-did-not-rearm", lambda: f"{pc!r}: In1 = 1 from tick {up} on, run of {n} ticks: Alarm body ran {cnt} times; marks {marks}")
+    if w.name == "Watch" and body_mark:
+        sym.check(marks.count(body_mark[0]) <= 1, "C04|generated|watch-ran-twice", lambda: f"{pc!r}: marks {marks}")
+
+
+def _gen_shards(tier):
+    cfgs = []
+    if tier == "quick":
+        cfgs += [{"slots": 2, "body": 2, "blocks": 1, "first": "watch", "in1_mode": "up"}]
+    else:
+        cfgs += [{"slots": 2, "body": 2, "blocks": 2, "first": "watch", "in1_mode": "up"}]
+        cfgs += [{"slots": 2, "body": 2, "blocks": 2, "first": "block", "in1_mode": "up"}]
+        cfgs += [{"slots": 3, "body": 2, "blocks": 1, "first": "mark", "in1_mode": "up"}]
+    return [dict(c, pre=[p0, p1]) for c in cfgs for p0 in range(7) for p1 in range(7)]
+
+
 def _shards_c(tier):
     if tier == "quick":
         return [{"template": t, "n": min(TICKS[t], 14)} for t in COND_TEMPLATES]
@@ -52,7 +97,14 @@ _ENC = ["openpectus.lang.exec.pinterpreter:PInterpreter.visit_WatchNode", "openp
         "openpectus.engine.command_manager:CommandManager.cancel_instruction", "openpectus.engine.command_manager:CommandManager.force_instruction",
         "openpectus.lang.exec.tracking:Tracking.mark_cancelled", "openpectus.lang.exec.tracking:Tracking.mark_forced"]
 
-OBLIGATIONS = [
+_GENERATED = Obligation(
+    name="generated_methods", kind="crosshair", harness=harness_generated, shards=_gen_shards, cpu_budget={"quick": 400.0, "thorough": 3000.0}, encoded=_ENC[:6],
+    symbolic="the kind of every item of the method, Watch or Alarm, the shape of its body (selectors); the tick at which the condition becomes true (it stays true)",
+    bounds={"quick": "first item the Watch / Alarm, 2 top-level items, at most one block", "thorough": "Watch / Alarm first, inside a first Block, or anywhere among 3 top-level items; at most 2 blocks"},
+    assumptions=["liveness is judged for a Watch / Alarm at the root only (its scope never ends): body ran once within 10 ticks, the Alarm body twice within 18 ticks, counted from the later of 'condition true' and 'method finished'",
+                 "tick interval fixed; fake hardware; log statements removed at import"])
+
+OBLIGATIONS = [_GENERATED,
     Obligation(name="conditions", kind="crosshair", harness=harness_conditions, shards=_shards_c,
                cpu_budget={"quick": 300.0, "thorough": 2400.0}, encoded=_ENC,
                symbolic="ticks at which the condition tag In1 switches on and off (two ints over the run length); UOD durations",
